@@ -8,9 +8,9 @@
   same order), `removeSuffixAtEnd` mirrors `_remove_suffix_at_end`, `endLlm` mirrors `on_llm_end`.
   Python's `if self.prefix:` / `if self.suffix:` treat `None` and `""` alike: both are `[]` here.
 
-  Data-level simplification (tied by the differential check, see design_notes/C18.md):
-  `min(completion.find(s) for s in stop if s in completion)` is modelled by the left-to-right scan
-  `cutStop`, which returns the text before the first position where any stop sequence starts.
+  `min(completion.find(s) for s in stop if s in completion)` is written down as `cutMin` and PROVED equal
+  to the left-to-right scan `cutStop` used by `processStr` (returns the text before the first position
+  where any stop sequence starts).
 -/
 namespace NemoVerif.Stream
 
@@ -41,6 +41,29 @@ def stopHere (stops : List Str) (t : Str) : Bool := stops.any (fun s => s.isPref
 def cutStop (stops : List Str) : Str → Option Str
   | [] => if stopHere stops [] then some [] else none
   | c :: t => if stopHere stops (c :: t) then some [] else (cutStop stops t).map (c :: ·)
+
+/-! the same cut written as in the source: `stop_positions = [completion.find(s) for s in self.stop if s in completion]`,
+    `completion[: min(stop_positions)]` — proved equal to `cutStop` (`Lemmas/StreamFind.lean`, `C18.cut_is_min_find`) -/
+
+/-- `t.find(p)`: the first index at which `p` occurs in `t` (`none` = -1) -/
+def findStr (p : Str) : Str → Option Nat
+  | [] => if p.isPrefixOf [] then some 0 else none
+  | c :: t => if p.isPrefixOf (c :: t) then some 0 else (findStr p t).map (· + 1)
+
+/-- `[completion.find(stop_chunk) for stop_chunk in self.stop if stop_chunk in completion]` -/
+def stopPositions (stops : List Str) (t : Str) : List Nat := stops.filterMap (fun p => findStr p t)
+
+/-- `min(stop_positions)` -/
+def minList : List Nat → Nat
+  | [] => 0
+  | [a] => a
+  | a :: b :: r => min a (minList (b :: r))
+
+/-- `if stop_positions: completion = completion[: min(stop_positions)]` -/
+def cutMin (stops : List Str) (t : Str) : Option Str :=
+  match stopPositions stops t with
+  | [] => none
+  | ps => some (t.take (minList ps))
 
 /-- `text[: -len(suffix)]` if `suffix and text.endswith(suffix)` -/
 def stripSuffix (sfx t : Str) : Str :=
@@ -152,6 +175,10 @@ def viaTokens (cs : List Str) : List Str :=
 def pipeTarget (items : List (Option Str)) : List (Option Str) :=
   let c0 : Cfg := { pfx := [], suffix := [], stop := [] }
   (items.foldl (fun s it => push c0 s it) (init c0)).out
+
+/-- `pipe_to` into a handler that has its OWN configuration `cfg2` (two-stage pipe): its final state -/
+def pipeTargetCfg (cfg2 : Cfg) (items : List (Option Str)) : St :=
+  items.foldl (fun s it => push cfg2 s it) (init cfg2)
 
 /-! ### specification (written from the property statement) -/
 
